@@ -69,7 +69,10 @@ def generate(rng, tier, prop):
             ops.append({"op": "perturb", "h": h, "attr": attr, "i": rng.randrange(6 if keys is KEYS else 400), "j": rng.randrange(8)})
             continue
         if subject != "entry":
-            ops.append({"op": "cross", "h": h})
+            ops.append({"op": rng.choice(["cross", "cross", "read_meta"]), "h": h})
+            continue
+        if rng.random() < 0.06:
+            ops.append({"op": rng.choice(["read_meta", "share_field", "share_field", "shallow"]), "h": h, "k": rng.choice(keys)})
             continue
         k = rng.choice(keys)
         kind = rng.choice(["set_field", "set_field", "setitem", "setitem", "pop", "pop_default", "delitem",
@@ -110,6 +113,11 @@ class SModel:
         return (self.cls, self.key, _canon(self.value), self.line, self.raw, _canon(self.meta))
 
 
+def hash_free_index(text, n):
+    """Deterministic index from a string without hash() (which is salted per process)."""
+    return sum(ord(c) for c in str(text)) % max(1, n)
+
+
 def _canon(v):
     if isinstance(v, list):
         return ("list",) + tuple(_canon(x) for x in v)
@@ -144,10 +152,34 @@ def _build_entry(m):
     return e
 
 
+def _obs(e):
+    """What an entry shows, field by field (identity of the Field, its key, value and line)."""
+    return (e.entry_type, e.key, tuple((id(f), f.key, _canon(f.value), f.start_line) for f in e.fields))
+
+
+def _inconsistent(e):
+    """Model-free: fields, fields_dict, items(), get, in and [] must describe the same fields (distinct keys assumed)."""
+    fl = e.fields
+    keys = [f.key for f in fl]
+    if len(set(keys)) != len(keys):
+        return None
+    fd = e.fields_dict
+    if list(fd) != keys or any(fd[k] is not f for k, f in zip(keys, fl)):
+        return f"fields are {keys} but fields_dict describes {list(fd)}"
+    it = [(k, v) for k, v in e.items() if k not in ("ENTRYTYPE", "ID")]
+    if [k for k, _ in it] != keys or any(v is not f.value for (_, v), f in zip(it, fl)):
+        return f"fields are {keys} but items() describes {[k for k, _ in it]}"
+    for f in fl:
+        if e.get(f.key) is not f or f.key not in e or e[f.key] is not f.value:
+            return f"field {f.key!r} is in fields but get / in / [] do not find that field"
+    return None
+
+
 def execute(run, props):
     res = RunResult()
     cfg = run["config"]
     subject = cfg["subject"]
+    shared = set()      # ids of Field objects the caller put into both holders
     holders = [None, None]   # real objects
     models = [None, None]
 
@@ -236,6 +268,9 @@ def execute(run, props):
         obj, m = holders[h], models[h]
         outcome = "ok"
         label = kind
+        other = holders[1 - h] if subject == "entry" else None
+        other_before = _obs(other) if other is not None else None
+        check_isolation = kind not in ("fork", "share_field")
 
         if kind == "fork":
             how = op["how"]
@@ -307,12 +342,12 @@ def execute(run, props):
                 elif attr == "fkey" and keys:
                     k = keys[i % len(keys)]
                     nk = KEYS[j % len(KEYS)]
-                    if nk not in m.d:
+                    if nk not in m.d and id(m.d[k]) not in shared:
                         f = m.d[k]
                         f.key = nk
                         m.d = {(nk if kk == k else kk): ff for kk, ff in m.d.items()}
                         done = True
-                elif attr in ("fval", "value") and keys:
+                elif attr in ("fval", "value") and keys and id(m.d[keys[i % len(keys)]]) not in shared:
                     k = keys[i % len(keys)]
                     m.d[k].value = copy.deepcopy(VALS[j % len(VALS)])
                     done = True
@@ -355,6 +390,65 @@ def execute(run, props):
             res.nops += 1
             res.nontrivial = True
             res.probes["perturb_" + attr] += 1
+
+        elif kind == "read_meta":
+            # reading must not change anything (lazily created state would show up in equality)
+            label = "read-metadata"
+            _ = obj.parser_metadata if subject != "field" else None
+            if subject != "field":
+                obj.get_parser_metadata("never-set")
+            res.sim_steps += 1
+            res.nops += 1
+            res.probes["read_metadata"] += 1
+
+        elif kind == "share_field" and subject == "entry":
+            # the caller puts one Field object into both entries (b.set_field(a.get(k)))
+            label = "share-field"
+            if holders[1] is None or not models[0].d:
+                res.skipped += 1
+                res.event(step, label, "skipped", "")
+                continue
+            ks = list(models[0].d)
+            f = models[0].d[ks[hash_free_index(op.get("k", ""), len(ks))]]
+            holders[1].set_field(f)
+            models[1].d[f.key] = f
+            shared.add(id(f))
+            res.sim_steps += 1
+            res.nops += 1
+            res.nontrivial = True
+            res.probes["field_object_shared_between_entries"] += 1
+
+        elif kind == "shallow" and subject == "entry":
+            # look something up, take a shallow copy, change the copy: every view of both must stay consistent
+            label = "shallow-copy-scenario"
+            E = copy.deepcopy(obj)
+            k = op.get("k", "a")
+            E.get(k), (k in E), E.fields_dict, E.items()
+            C = copy.copy(E)
+            how = ["setitem", "set_field", "pop"][hash_free_index(k, 3)]
+            try:
+                if how == "setitem":
+                    C[k] = "shallow"
+                elif how == "set_field":
+                    C.set_field(M.Field(k, "shallow", 5))
+                else:
+                    C.pop(k)
+            except Exception as e:  # noqa
+                V("exception", "shallow-copy/" + how, step, f"{how} on a shallow copy raised {type(e).__name__}: {e}")
+                return res
+            res.sim_steps += 1
+            res.nops += 1
+            for who, e_ in (("the original", E), ("the shallow copy", C)):
+                bad = _inconsistent(e_)
+                if bad:
+                    V("views", "after-change-through-shallow-copy/" + how, step, f"after {how}({k!r}) on a shallow copy, {who} is inconsistent: {bad}")
+                    return res
+            res.probes["shallow_copy_scenario"] += 1
+
+        elif kind in ("share_field", "shallow"):
+            res.skipped += 1
+            res.event(step, kind, "skipped", "")
+            continue
 
         elif kind == "cross":
             # same content, another class: never equal
@@ -465,6 +559,13 @@ def execute(run, props):
             low = [x.lower() for x in ks]
             if len(set(low)) < len(low):
                 res.probes["case_variant_keys_coexist"] += 1
+
+        # ---- isolation: what the caller did to one entry must not show in the other one
+        if other is not None and check_isolation and holders[1 - h] is other and _obs(other) != other_before:
+            V("isolation", label, step,
+              f"{label} on one entry changed another entry that merely holds "
+              + ("one of the same Field objects" if shared else "a deep copy") + f": {other_before[2]} -> {_obs(other)[2]}")
+            return res
 
         # ---- invariants after every op
         if subject == "entry":
